@@ -204,7 +204,7 @@ def run(ctx):
             )
             _judge(part, model, sig, res, exp_dim, exp_mag, {"history": algebra.describe(h)}, snippet)
 
-        graph, transitions = algebra.explore(db, depth_graph, on_transition=on_transition)
+        graph, transitions = algebra.explore(db, depth_graph, on_transition=on_transition, reciprocals=True)
         states = [s for s in graph if s.depth <= depth_pairs]
         part.sample({"deepest_history": algebra.describe(graph[-1].history), "result": repr(graph[-1].scalar)})
     _G["v1"] = states
@@ -218,7 +218,7 @@ def run(ctx):
     ctx.transitions = transitions + ctx.part.counters.get("pairs", 0)
     ctx.traces = ctx.transitions
     ctx.rule = (
-        "BFS over products/quotients of %d atoms (category, unit) to depth %d (graph) and all ordered pairs of the %d states of depth <= %d; "
+        "BFS over products/quotients from %d atoms (category, unit) and their reciprocals 1.0/atom to depth %d (graph) and all ordered pairs of the %d states of depth <= %d; "
         "non-trivial = ordered pairs whose product has at least two composing entries; outcomes = distinct unit strings of products"
         % (len(algebra.BASIS), depth_graph, len(states), depth_pairs)
     )
